@@ -61,6 +61,11 @@ def generate(rs: int, tier: str, index: int) -> dict:
     if sympy_case and kindc in ("complex", "bool"):
         kindc = "int"
     lit = gen_poly(ch.sub("p"), names=names, shape=shape, kind=kindc, same_degree=ch.choice([None, None, 3, 5, 9]), max_exp=ch.choice([3, 3, 12]))
+    crd = ch.sub("doubles")
+    if kindc == "float" and crd.chance(0.7 if sympy_case else 0.1):
+        # arbitrary doubles (all 53 bits in use): their shortest decimal form has 16-17 digits, and reading it back in
+        # two rounding steps instead of one lands on a neighbouring double now and then
+        lit["coefficients"] = [[(crd.below(2**53) + 1) / 2**53 * crd.choice([1.0, 1.0, 1000.0, 1e-3, -1.0, 1e10]) for _ in col] for col in lit["coefficients"]]
     # units and negative leading/trailing terms
     for col in lit["coefficients"]:
         for j in range(len(col)):
@@ -424,7 +429,7 @@ class Runner:
             self.bump("decided")
             self.sigs.add(f"sympy|{core.H(core.jdump(step['p']))}|{pol}")
             want, have = model.canon(p), model.canon(back)
-            if not model.canon_equal(want, have, exact=False):
+            if not model.canon_equal(want, have, exact=True):
                 self.violate("sympy-roundtrip", "to_sympy", sid, f"{str(p)!r} came back as {model.canon_text(have)[:200]}")
         self.events.append(["sympy", model.poly_fingerprint(p)])
 
